@@ -29,6 +29,7 @@
  * ------------------------------------------------------------------------ */
 
 static PStructElem          pLabelElement;
+static LargeWord            LabelElementBase;
 static struct sSymbolEntry* pLabelEntry;
 static LargeWord            LabelValue;
 
@@ -102,12 +103,22 @@ void LabelHandle(tStrComp const* pName, LargeWord Value, Boolean ForceGlobal) {
     /* structure element ? */
 
     if (pInnermostNamedStruct) {
+        PStructStack pRun;
+
         pLabelElement = CreateStructElem(pName);
         if (!pLabelElement) {
             return;
         }
 
-        pLabelElement->Offset = Value;
+        /* the element's offset counts from the innermost named structure: add
+           up the offsets of the unnamed structures/unions in between */
+
+        LabelElementBase = 0;
+        for (pRun = StructStack; pRun && (pRun != pInnermostNamedStruct);
+             pRun = pRun->Next) {
+            LabelElementBase += pRun->SaveCurrPC;
+        }
+        pLabelElement->Offset = LabelElementBase + Value;
         if (AddStructElem(pInnermostNamedStruct->StructRec, pLabelElement)) {
             AddStructSymbol(pLabelElement->pElemName, Value);
         }
@@ -145,7 +156,7 @@ void LabelHandle(tStrComp const* pName, LargeWord Value, Boolean ForceGlobal) {
 void LabelModify(LargeWord OldValue, LargeWord NewValue) {
     if (OldValue == LabelValue) {
         if (pLabelElement) {
-            pLabelElement->Offset = NewValue;
+            pLabelElement->Offset = LabelElementBase + NewValue;
         }
         if (pLabelEntry) {
             ChangeSymbol(pLabelEntry, NewValue);
